@@ -23,3 +23,11 @@ mut("C17-4", "C17", F, "\t\t\treq.Body = body\n", "\t\t\t_ = body\n", ["RoundTri
 mut("C17-5", "C17", "registry/remote/retry/policy.go", "\tif backoff > p.MaxWait {\n\t\tbackoff = p.MaxWait\n\t}\n", "\tif backoff > p.MaxWait {\n\t\tbackoff = p.MinWait\n\t}\n", ["Retry/post:clamp"], "harmless-looking clamp edit (still within bounds)", harmless=True)
 mut("C17-6", "C17", "registry/remote/retry/policy.go", "\tif backoff < p.MinWait {\n\t\tbackoff = p.MinWait\n\t}\n\tif backoff > p.MaxWait {\n\t\tbackoff = p.MaxWait\n\t}\n", "\tif backoff > p.MaxWait {\n\t\tbackoff = p.MaxWait\n\t}\n\tif backoff < p.MinWait/2 {\n\t\tbackoff = p.MinWait\n\t}\n", ["Retry/post:clamp"], "clamp lower bound halved")
 mut("C17-7", "C17", "registry/remote/retry/policy.go", "\tif attempt >= p.MaxRetry {", "\tif attempt > p.MaxRetry {", ["Retry/post:maxretry"], "off-by-one in the retry budget")
+mut("C17-8", "C17", "registry/remote/retry/policy.go", """		wait := time.Duration(temp * (1 - jitter))
+		// rand.Int64N panics unless its argument is positive
+		if n := int64(2 * jitter * temp); n > 0 {
+			wait += time.Duration(rand.Int64N(n))
+		}
+		return wait
+""", """		return time.Duration(temp*(1-jitter)) + time.Duration(rand.Int64N(int64(2*jitter*temp)))
+""", ["ExponentialBackoff$1/pre:Int64N#0:n-positive"], "(canary) pre-fix ExponentialBackoff: rand.Int64N with non-positive bound")
